@@ -215,6 +215,7 @@ func (b *UDPListener) Start(ctx context.Context, wg *sync.WaitGroup) (chan netce
 					li:       b,
 					raddr:    addr,
 					recvChan: make(chan []byte),
+					closed:   make(chan struct{}),
 				}
 				b.sessionRegistry[addrStr] = sess
 				b.sessRegLock.Unlock()
@@ -232,6 +233,9 @@ func (b *UDPListener) Start(ctx context.Context, wg *sync.WaitGroup) (chan netce
 
 				return
 			case sess.recvChan <- data:
+			case <-sess.closed:
+				// The session ended after it was looked up: nobody reads its channel any more, and waiting for a
+				// reader would stop this loop - the only receiver for all peers of this listener - for good.
 			}
 		}
 	}()
@@ -244,9 +248,11 @@ func (b *UDPListener) Start(ctx context.Context, wg *sync.WaitGroup) (chan netce
 
 // UDPListenerSession implements BackendSession for UDPListener.
 type UDPListenerSession struct {
-	li       *UDPListener
-	raddr    *net.UDPAddr
-	recvChan chan []byte
+	li        *UDPListener
+	raddr     *net.UDPAddr
+	recvChan  chan []byte
+	closed    chan struct{}
+	closeOnce sync.Once
 }
 
 // Send sends data over the session.
@@ -273,6 +279,7 @@ func (ns *UDPListenerSession) Recv(timeout time.Duration) ([]byte, error) {
 
 // Close closes the session.
 func (ns *UDPListenerSession) Close() error {
+	ns.closeOnce.Do(func() { close(ns.closed) })
 	ns.li.sessRegLock.Lock()
 	defer ns.li.sessRegLock.Unlock()
 	delete(ns.li.sessionRegistry, ns.raddr.String())
